@@ -638,6 +638,75 @@ def rule_AI17(rep, prog):
         rep.unknown(rid, "fewer than 2 callers of _dispatch_timer_unote_compute_missed found (%d)" % n)
 
 
+def rule_MP18(rep, prog):
+    rid = rep.rule("C11-MP18", "a new timer configuration is applied to the heaps by the manager thread only, except for a timer that is out of the heaps: in source.c every "
+                   "_dispatch_timer_unote_configure is reached either after establishing that the current queue is the kernel-event (manager) queue, or under the "
+                   "DISARMED marker of the value just latched (the manager took the timer out of the heap and handed it over) - otherwise the heap is updated off "
+                   "the manager, nobody re-programs the kernel timer and the new, earlier deadline only takes effect when the OLD one fires", floor=2)
+    k = consts.get(["DISPATCH_TIMER_DISARMED_MARKER"], unit="event/event")
+    DM = k["DISPATCH_TIMER_DISARMED_MARKER"]
+    n = 0
+    for fn in prog.all_functions():
+        if fn.file is None or not str(fn.file).endswith("source.c"):
+            continue
+        for c in calls_named(fn, "_dispatch_timer_unote_configure"):
+            n += 1
+            rep.saw(fn)
+            def is_mgr(op):
+                if op[0] == "g":
+                    return op[1] == "_dispatch_mgr_q"
+                i = fn.inst(op) if op[0] == "i" else None
+                return i is not None and i.op == "phi" and any(o[0][0] == "g" and o[0][1] == "_dispatch_mgr_q" for o in i.ops)
+            ok = False
+            for iid, tv in paths.dom_ctx(fn, c).truth.items():
+                t = fn.insts[iid]
+                if t.op != "icmp" or t.d["pred"] not in ("eq", "ne"):
+                    continue
+                if (is_mgr(t.ops[0]) or is_mgr(t.ops[1])) and tv == (t.d["pred"] == "eq"):
+                    ok = True
+                if t.ops[1][0] == "c" and t.ops[1][1] == 0 and tv == (t.d["pred"] == "ne"):
+                    a = fn.inst(t.ops[0])
+                    if a is not None and a.op == "and" and a.ops[1][0] == "c" and a.ops[1][1] == DM:
+                        src = fn.inst(a.ops[0])
+                        seen_ = 0
+                        while src is not None and src.op in ("zext", "trunc", "phi", "call") and seen_ < 6:
+                            seen_ += 1
+                            if src.op == "phi":
+                                nxt = [fn.inst(v) for v, frm in src.ops if fn.inst(v) is not None]
+                                src = nxt[0] if nxt else None
+                            elif src.op == "call":
+                                # _dispatch_source_timer_data(dr, prev) / helpers that return a value derived from the latched word: follow the argument
+                                nxt = [fn.inst(o) for o in src.ops if fn.inst(o) is not None and fn.inst(o).op in ("atomicrmw", "load", "phi", "trunc", "zext")]
+                                src = nxt[-1] if nxt else None
+                            else:
+                                src = fn.inst(src.ops[0])
+                        if src is not None and src.op in ("atomicrmw", "load", "cmpxchg") and "ds_pending_data" in prog.fields(src):
+                            ok = True
+            rep.require(rid, ok, c.loc, fn.name, "timer-configured-off-manager:%s" % fn.name,
+                        "%s applies a pending dispatch_source_set_timer configuration without being on the manager queue and without the DISARMED marker in the value "
+                        "it latched: the timer may still be armed in the heap, the heap is modified concurrently with the manager thread, and since the pending "
+                        "configuration has been consumed nothing sends the source to the manager to re-program the kernel timer - a timer re-armed from its own handler "
+                        "with an earlier start keeps firing on the old schedule" % fn.name, sample={"site": c.loc, "fn": fn.name})
+    if n < 2:
+        rep.unknown(rid, "fewer than 2 calls of _dispatch_timer_unote_configure found in source.c (%d)" % n)
+
+
+def rule_TB19(rep, prog, srcdir):
+    rid = rep.rule("C11-TB19", "one kernel timer per timer heap: the number of heaps the generic timer code keeps (DISPATCH_TIMER_COUNT = QoS buckets x clocks, from "
+                   "event_config.h) equals the number of kernel timers the event backend owns (the epoll backend's timerfd table, one per clock) - with more heaps "
+                   "than kernel timers the heaps of one clock overwrite each other's deadline and a fired timer re-programs only one of them", floor=1)
+    k = consts.get(["DISPATCH_TIMER_COUNT", "DISPATCH_CLOCK_COUNT", "DISPATCH_TIMER_QOS_COUNT"], srcdir=srcdir, unit="event/event")
+    g = prog.global_("_dispatch_epoll_timeout")
+    if g is None or not g.get("len"):
+        rep.unknown(rid, "the epoll backend's kernel timer table (_dispatch_epoll_timeout) was not found")
+        return
+    rep.require(rid, g["len"] == k["DISPATCH_TIMER_COUNT"], "src/event/event_config.h", "_dispatch_epoll_timeout", "more-timer-heaps-than-kernel-timers",
+                "the timer code keeps %d heaps (%d QoS bucket(s) x %d clocks) but the epoll backend has %d kernel timers: timers of the same clock in different "
+                "buckets share one timerfd - the later-programmed bucket overwrites the earlier deadline (a timer fires late) and emptying one bucket deletes the "
+                "timerfd the others still wait on (a timer never fires)" % (k["DISPATCH_TIMER_COUNT"], k["DISPATCH_TIMER_QOS_COUNT"], k["DISPATCH_CLOCK_COUNT"], g["len"]),
+                sample={"heaps": k["DISPATCH_TIMER_COUNT"], "kernel_timers": g["len"]})
+
+
 def rule_TB10(rep, prog):
     rid = rep.rule("C11-TB10", "the kernel timer's bookkeeping mirrors the epoll operation just performed: after epoll_ctl(op) on a timerfd both det_registered and "
                    "det_armed are set, unconditionally, to (op != EPOLL_CTL_DEL); the next arm then chooses ADD / MOD correctly", floor=2)
@@ -727,6 +796,10 @@ def run(rep, tier="quick", srcdir=None, only=None):
         rule_SB16(rep, prog)
     if want("C11-AI17"):
         rule_AI17(rep, prog)
+    if want("C11-MP18"):
+        rule_MP18(rep, prog)
+    if want("C11-TB19"):
+        rule_TB19(rep, prog, srcdir)
 
 
 MANIFEST = {
